@@ -23,6 +23,7 @@ import (
 	"io"
 	"log"
 	"os"
+	"sync/atomic"
 	"time"
 )
 
@@ -160,35 +161,42 @@ func (d *discardLogger) Warn(format string, args ...any)  {}
 func (d *discardLogger) Error(format string, args ...any) {}
 func (d *discardLogger) SetLevel(level Level)             {}
 
-// Global default logger
-var defaultInstance Logger = NewLogger(INFO, os.Stdout)
+// Global default logger. It is replaced (SetDefault, WithDiscardLog) while pipeline
+// goroutines of other instances read it, so it is held in an atomic value.
+type loggerHolder struct{ l Logger }
+
+var defaultInstance atomic.Value // loggerHolder
+
+func init() {
+	defaultInstance.Store(loggerHolder{NewLogger(INFO, os.Stdout)})
+}
 
 // SetDefault sets the global default logger
 func SetDefault(logger Logger) {
-	defaultInstance = logger
+	defaultInstance.Store(loggerHolder{logger})
 }
 
 // GetDefault gets the global default logger
 func GetDefault() Logger {
-	return defaultInstance
+	return defaultInstance.Load().(loggerHolder).l
 }
 
 // Debug uses the default logger to record debug information
 func Debug(format string, args ...any) {
-	defaultInstance.Debug(format, args...)
+	GetDefault().Debug(format, args...)
 }
 
 // Info uses the default logger to record information
 func Info(format string, args ...any) {
-	defaultInstance.Info(format, args...)
+	GetDefault().Info(format, args...)
 }
 
 // Warn uses the default logger to record warnings
 func Warn(format string, args ...any) {
-	defaultInstance.Warn(format, args...)
+	GetDefault().Warn(format, args...)
 }
 
 // Error uses the default logger to record errors
 func Error(format string, args ...any) {
-	defaultInstance.Error(format, args...)
+	GetDefault().Error(format, args...)
 }
